@@ -39,7 +39,7 @@ var (
 
 func run(pass *analysis.Pass) (any, error) {
 	for node := range code.Matches(pass, checkTimeUntilQ) {
-		if sel, ok := node.(*ast.CallExpr).Fun.(*ast.SelectorExpr); ok {
+		if sel, ok := node.(*ast.CallExpr).Fun.(*ast.SelectorExpr); ok && code.PackageNameResolves(pass, node.Pos(), "time", "time") {
 			r := pattern.NodeToAST(checkTimeUntilR.Root, map[string]any{"arg": sel.X}).(ast.Node)
 			report.Report(pass, node, "should use time.Until instead of t.Sub(time.Now())",
 				report.FilterGenerated(),
